@@ -280,6 +280,11 @@ def configs(tier):
            (layout, dict(present=full, types='aaaaaaa')),
            (layout, dict(present=full, types='abUcabU')),
            (layout, dict(present=(0, 1, 1, 0, 1, 1, 0), types='cUca'))]
+    # the centre and one neighbour, on each of the six hex sides, finer mesh at either end (every side / corner wrap-around)
+    for k in range(1, 7):
+        present = tuple(1 if i in (0, k) else 0 for i in range(7))
+        out.append((layout, dict(present=present, types='ca')))
+        out.append((layout, dict(present=present, types='ac')))
     if tier == 'thorough':
         out += [(layout, dict(present=full, types='ceUaceb')), (layout, dict(present=(1,) * 7 + (1, 0, 1, 1, 0, 0, 1, 1, 0, 1, 0, 1),
                                                                             types='aUcaUcaUcaUcaU'[:14]))]
